@@ -10,7 +10,6 @@ import (
 	"github.com/projecteru2/core/store"
 	"github.com/projecteru2/core/types"
 
-	"github.com/alphadose/haxmap"
 	"github.com/google/uuid"
 )
 
@@ -20,7 +19,8 @@ const interval = 15 * time.Second
 type Helium struct {
 	sync.Once
 	store     store.Store
-	subs      *haxmap.Map[uint32, entry]
+	mu        sync.Mutex // guards subs: Subscribe is called by any goroutine while the loop removes and iterates
+	subs      map[uint32]entry
 	interval  time.Duration
 	unsubChan chan uint32
 }
@@ -36,7 +36,7 @@ func New(ctx context.Context, config types.GRPCConfig, store store.Store) *Heliu
 	h := &Helium{
 		interval:  config.ServiceDiscoveryPushInterval,
 		store:     store,
-		subs:      haxmap.New[uint32, entry](),
+		subs:      map[uint32]entry{},
 		unsubChan: make(chan uint32),
 	}
 	if h.interval < time.Second {
@@ -54,11 +54,13 @@ func (h *Helium) Subscribe(ctx context.Context) (uuid.UUID, <-chan types.Service
 	key := ID.ID()
 	subCtx, cancel := context.WithCancel(ctx)
 	ch := make(chan types.ServiceStatus)
-	h.subs.Set(key, entry{
+	h.mu.Lock()
+	h.subs[key] = entry{
 		ch:     ch,
 		ctx:    subCtx,
 		cancel: cancel,
-	})
+	}
+	h.mu.Unlock()
 	return ID, ch
 }
 
@@ -95,9 +97,12 @@ func (h *Helium) start(ctx context.Context) {
 				}
 
 			case ID := <-h.unsubChan:
-				if entry, ok := h.subs.Get(ID); ok {
+				h.mu.Lock()
+				entry, ok := h.subs[ID]
+				delete(h.subs, ID)
+				h.mu.Unlock()
+				if ok {
 					entry.cancel()
-					h.subs.Del(ID)
 					close(entry.ch)
 				}
 
@@ -123,8 +128,14 @@ func (h *Helium) dispatch(ctx context.Context, status types.ServiceStatus) {
 			return
 		}
 	}
-	h.subs.ForEach(func(k uint32, v entry) bool {
+	// the sends block: they are made on a copy of the registry, not under its lock
+	h.mu.Lock()
+	subs := make(map[uint32]entry, len(h.subs))
+	for k, v := range h.subs {
+		subs[k] = v
+	}
+	h.mu.Unlock()
+	for k, v := range subs {
 		f(k, v)
-		return true
-	})
+	}
 }
